@@ -18,7 +18,7 @@ FAM = {s.sid: s for s in S.family_F()}
 FAM['I1'] = Schema('I1', [Opt('func', 'include', '', None, 'i'), Opt('int', 'i', '', 5), Opt('str', 's', '', b'q'),
                           Opt('sec', 'sec', '', sub=[Opt('int', 'x', '', 1)]), Opt('sec', 'm', 'M', sub=[Opt('int', 'x', '', 1)])])
 USE = ['F01', 'F03', 'F05', 'F06', 'F07', 'F08', 'F09', 'F11', 'F13', 'F15', 'F16']
-SEPS = [b'\n', b'\n\n', b' # c\n', b' // c\n', b' /* c */ ', b' /* a\nb */ ']
+SEPS = [b'\n', b'\n\n', b' # c\n', b' // c\n', b' /* c */ ', b' /* a\nb */ ', b' /* a *\n * b\n */ ']
 BATCH = 300
 
 
@@ -33,6 +33,8 @@ def words_for(sch):
     w.insert(len(w) - 7, b'zz')
     w.insert(len(w) - 7, b'"a\nb"')
     w.insert(len(w) - 7, b"'a\\\nb'")
+    w.insert(len(w) - 7, b"'a\nb'")
+    w.insert(len(w) - 7, b'"a\\\nb"')
     return w
 
 
